@@ -8,11 +8,16 @@ void *radix_alloc(size_t n);
 void radix_free(void *p, size_t n);
 void radix_val_ctor(void *p); // a value object came into existence at p / its destructor runs (mode 0 only)
 void radix_val_dtor(void *p);
+void radix_arg_moved(void); // insert()/find_or_insert() moved from an lvalue argument
 // instrumented glue
 // mode 0: value type with a user-provided constructor (key, seq, check) and destructor, both reporting to the harness;
 // mode 1: the plain aggregate RVal, inserted WITHOUT constructor arguments (value-initialised), filled in by the user afterwards;
 // mode 2: the value type is a raw pointer (RVal *) to a record the user owns (rec); find() returns the address of that pointer
+// mode 3: an over-aligned (alignas(64)) value type
 size_t sut_tree_size();
+size_t sut_value_size(int mode);
+size_t sut_value_align(int mode);
+void sut_plain_init(void *out);
 void sut_tree_construct(void *mem, int mode);
 void sut_tree_destroy(void *mem);
 void *sut_find(void *tree, uint64_t key, int via_const);
